@@ -9,6 +9,7 @@ from sa.context import Context
 from sa.model import AnalysisError
 from sa.rust import RustFn, kind, norm, text, walk, walk_no_closure
 
+RECV_METHODS = {"recv", "recv_timeout", "try_recv", "recv_deadline"}
 PM = "rust/src/parallel_map.rs"
 EI = "rust/src/example_iteration.rs"
 LIB = "rust/src/lib.rs"
@@ -64,8 +65,8 @@ def check_recv(ctx: Context, rep, rule: str) -> None:
         ".ok(), if-let/match whose Err side yields None")
     fn = ctx.rust.fn(PM, "<Iterator for ParallelMap>::next")
     pm = parent_map(fn.body)
-    recvs = [n for n in fn.method_calls("recv") if ".receive" in norm(text(n["recv"]))
-             or "receive" in norm(text(n["recv"]))]
+    recvs = [n for n in fn.method_calls() if n["method"] in RECV_METHODS and
+             "receive" in norm(text(n["recv"]))]
     if not recvs:
         raise AnalysisError("C07.rust-recv: no recv() on a worker channel in "
                             "ParallelMap::next")
@@ -73,10 +74,12 @@ def check_recv(ctx: Context, rep, rule: str) -> None:
         p = pm.get(id(r))
         verdict = None
         detail = ""
-        construct = "recv()"
+        rname = r["method"]
+        rcall = "recv()" if rname == "recv" else f"{rname}(..)"
+        construct = rcall
         if kind(p, "MethodCall") and p["recv"] is r:
             m = p["method"]
-            construct = f"recv().{m}({', '.join(norm(text(a)) for a in p['args'])})"
+            construct = f"{rcall}.{m}({', '.join(norm(text(a)) for a in p['args'])})"
             if m in ("unwrap", "expect"):
                 verdict = True
             elif m in ("unwrap_or_default", "unwrap_or", "unwrap_or_else", "ok",
@@ -132,8 +135,15 @@ def check_rotation(ctx: Context, rep, rule: str) -> None:
     fn = ctx.rust.fn(PM, "<Iterator for ParallelMap>::next")
     al = let_aliases(fn)
     oi = order_index(fn)
-    recvs = [n for n in fn.method_calls("recv")]
+    recvs = [n for n in fn.method_calls() if n["method"] in RECV_METHODS]
     sends = [n for n in fn.method_calls("send")]
+    for r in recvs:
+        rep.ob(rule, r["method"] == "recv", loc=fn.loc(r), where=fn.qual,
+               construct=norm(text(r))[-60:],
+               message="the consumer waits for the worker whose turn it is "
+               "with a blocking recv(): a timed / non-blocking receive turns "
+               "a slow worker into a missing result (end of stream or a "
+               "shifted rotation), so the output would depend on timing")
     if len(recvs) != 1 or len(sends) != 1:
         raise AnalysisError(f"C15.rot: expected one recv and one send in "
                             f"next(), found {len(recvs)}/{len(sends)}")
